@@ -42,7 +42,7 @@ func vhC24Pool(factory Factory, capacity, maxCap int) *ResourcePool {
 	return rp
 }
 
-//verif:harness prop=C24 sched=symbolic:1 noreplay=1 bounds="(engine-only: Go offers no way to force a schedule natively; the gated harness below replays natively) pool with capacity 1 and maximum 2 (dynamic scale-out on), three clients (the first takes the initial slot, then two run concurrently with its Put) each doing one Get, holding the connection across a scheduling point, and one Put; the factory contains a scheduling point; every interleaving at the pool's visible operations (channel, mutex, atomic) with at most 1 preemption (thorough: 2) besides the free choice of the next client whenever one blocks or ends"
+//verif:harness prop=C24 sched=symbolic:2 noreplay=1 bounds="(engine-only: Go offers no way to force a schedule natively; the gated harness below replays natively) pool with capacity 1 and maximum 2 (dynamic scale-out on), three clients (the first takes the initial slot, then two run concurrently with its Put) each doing one Get, holding the connection across a scheduling point, and one Put; the factory contains a scheduling point; every interleaving at the pool's visible operations (channel, mutex, atomic) with at most 2 preemptions besides the free choice of the next client whenever one blocks or ends"
 //verif:mock github.com/google/uuid.NewRandom vhC24UUID
 func Harness_C24_GetPut() {
 	created := 0
